@@ -7,7 +7,7 @@ From Coq Require Import String.
 From Coq Require Import List NArith Bool.
 From Coq.Strings Require Import Byte.
 From Model Require Import Bytes Frame Response Conn Compression.
-From Proofs Require Import CompressionFacts NegotiationFacts NegotiationTie.
+From Proofs Require Import ApiFacts CompressionFacts NegotiationFacts NegotiationTie.
 Import ListNotations.
 
 (* for every message history with per-message compress flags, both no_context_takeover settings, and every way of
@@ -118,3 +118,16 @@ Theorem C06_negotiation_table_is_model :
   forallb (fun row => NegotiationTie.reading_eqb (NegotiationTie.model_reading (fst row)) (snd row))
           Gen.GenNegotiation.impl_negotiation = true.
 Proof. exact NegotiationTie.table_agrees. Qed.
+
+(* control frames are never compressed: send_ping, send_pong and close() -- with or without a negotiated
+   permessage-deflate, whatever its parameters -- leave the deflate context and its oracle tape untouched, and what they
+   write (if anything) is the frame built with RSV1 clear from the payload as given (RFC 7692 section 5: the extension
+   operates on data messages only) *)
+Theorem C06_control_frames_never_compressed : forall c a op p,
+  control_call a = Some (op, p) ->
+  let c' := fst (api_call c a) in
+  k_zout c' = k_zout c /\ k_ctape c' = k_ctape c /\
+  (k_tr c' = k_tr c \/ k_tr c' = TWrite (build op false (next_key c) p) :: k_tr c \/
+   k_tr c' = TWriteFail (build op false (next_key c) p) :: k_tr c).
+Proof. exact control_frames_never_compressed. Qed.
+Print Assumptions C06_control_frames_never_compressed.
